@@ -664,8 +664,15 @@ def check_trim(ctx, prog, rule='C03.trim'):
         for f in prog.fn(name):
             if not f.get('body'):
                 continue
-            loops = [s_ for s_ in (f['body']['s'] if f['body'].get('k') == 'block' else []) if s_.get('k') in ('for', 'while')]
             role = '%s:the kept range never has a negative length' % f['n']
+            iv = interp_trim(prog, f)
+            if iv is not None:
+                n += 1
+                ctx.analysed(f)
+                ctx.evaluations += iv[2]
+                ctx.check(iv[0] == 'ok', rule, f['pq'], role, fwhere(f), iv[1], iv[1])
+                continue
+            loops = [s_ for s_ in (f['body']['s'] if f['body'].get('k') == 'block' else []) if s_.get('k') in ('for', 'while')]
             cls = [q.counted_loop(f, lp, need_init=False) for lp in loops]
             if len(loops) != 2 or any(c is None or not isinstance(c['step'], int) for c in cls):
                 ctx.undecided(rule, f['pq'], role, fwhere(f), 'two counting scan loops not recognised')
@@ -876,3 +883,41 @@ def check_numeric_model(ctx, prog):
             n += 1
             ctx.check(bad is None, 'C03.number', f['pq'], role, fwhere(f), 'interpreted for %d representative arguments' % len(reps), bad or '')
     ctx.floor('C03.number numeric constructors interpreted', n, 6)
+
+
+def interp_trim(prog, f):
+    """trimmed() / trim() interpreted (scansim) on every text over {space, tab, newline, CR, VT, 'a'} up to 4 characters: the result (the
+    returned String, or the receiver's own text and `_len` for the in-place form) is the text without its leading and trailing
+    white space, and no access - in particular no copy with a negative count - leaves the strings.
+    -> ('ok' | 'bad', text, runs) | None when the body is outside the interpreted fragment"""
+    import scansim, itertools
+    WS = ' \t\r\n'
+    runs = 0
+    for L in range(0, 5):
+        for t in itertools.product(' a\t\n\x0b\r', repeat=L):
+            text = ''.join(t)
+            bufs = {'T': [ord(c) for c in text] + [0]}
+            mems = {'_len': len(text)}
+            r = scansim.Run(prog, f, bufs, call_ptrs={'str': ('P', 'T', 0), 'data': ('P', 'T', 0)}, methods={'*': 'interp'}, mems=mems, objects=True)
+            runs += 1
+            shown = text.replace('\t', '\\t').replace('\n', '\\n').replace('\x0b', '\\v').replace('\r', '\\r')
+            try:
+                ret = r.run()
+            except scansim.OOB as o:
+                return 'bad', '"%s".%s(): %s (a white-space-only string yields a negative-length copy)' % (shown, f['n'], o), runs
+            except (scansim.Unsupported, TypeError, KeyError, IndexError, ValueError):
+                return None
+            if isinstance(ret, tuple) and ret[0] == 'P' and isinstance(ret[1], tuple) and ret[1][0] == 'O':
+                out = bufs[ret[1]]
+                got = ''.join(chr(x & 255) for x in out[:out.index(0)]) if 0 in out else None
+            elif ret == ('THIS',) or ret is None:
+                n_ = mems.get('_len')
+                if not isinstance(n_, int) or n_ < 0 or n_ >= len(bufs['T']) or bufs['T'][n_] != 0:
+                    return 'bad', '"%s".%s() leaves length() = %s, which is not the offset of the terminating NUL' % (shown, f['n'], n_), runs
+                got = ''.join(chr(x & 255) for x in bufs['T'][:n_])
+            else:
+                return None
+            if got != text.strip(WS):
+                esc = lambda x: x.replace('\t', '\\t').replace('\n', '\\n').replace('\x0b', '\\v').replace('\r', '\\r')
+                return 'bad', '"%s".%s() gives "%s", the model (white space = space, tab, CR, LF) gives "%s"' % (shown, f['n'], esc(got), esc(text.strip(WS))), runs
+    return 'ok', 'interpreted on %d texts: the result is the text without leading / trailing white space, every copy has a non-negative count' % runs, runs
